@@ -72,6 +72,8 @@ class TlsConn:
             self.cur = dict(self.hs)
         else:
             self.ms = g(48)
+            if shape.get("ms_hex"):              # a resumed session: same master secret as an earlier connection, fresh randoms
+                self.ms = bytes.fromhex(shape["ms_hex"])
             self.keylog = R.keylog_lines(ver, self.cr, ms=self.ms)
             kb = R.key_block(suite, ver, self.ms, self.cr, self.sr)
             self.kb = kb
